@@ -20,7 +20,7 @@ SCHEMES = [s for _, s in spaces.SCHQ] + [scale(spaces.UNIFYING, 2), scale(spaces
 def plan(tier, seed):
     alt = spaces.label_choices(seed, 1)[0]
     if tier == 'quick':
-        blocks = [dict(n=3, m=2, labels='ints'), dict(n=2, m=3, labels='ints'), dict(n=3, m=2, labels=alt),
+        blocks = [dict(n=3, m=2, labels='ints', histories=True), dict(n=2, m=3, labels='ints'), dict(n=3, m=2, labels=alt),
                   dict(n=4, m=2, labels='ints', schemes='core'), dict(n=3, m=3, labels='ints', schemes='core')]
     else:
         blocks = [dict(n=4, m=2, labels='ints'), dict(n=3, m=3, labels='ints'), dict(n=2, m=4, labels='ints'),
@@ -34,11 +34,11 @@ def init_worker(cfg):
     _lib.update(A=PickAPerm)
 
 
-def check_case(ctx, ds, lname, n, schemes):
+def check_case(ctx, ds, lname, n, schemes, dataset_obj=None, alg_obj=None, origin=None):
     from ..lib import mk_dataset, mk_scheme, labels_for, Back, wellformed
     labels = labels_for(lname, n)
     universe = spaces.universe_of(ds)
-    dataset = mk_dataset(ds, labels)
+    dataset = dataset_obj if dataset_obj is not None else mk_dataset(ds, labels)
     back = Back(labels, universe)
     complete = spaces.is_complete(ds)
     cands = [refmodel.canon(refmodel.unify(r, universe)) for r in ds]
@@ -50,9 +50,12 @@ def check_case(ctx, ds, lname, n, schemes):
         minimal = set(c for c, v in zip(cands, scores) if v <= best + 1e-9)
         ctx.cases += 1
         for one, reused in ((True, False), (False, False), (False, True), (True, True)):
-            case = {'cfg': {}, 'dataset': ds, 'labels': lname, 'n': n, 'scheme': s, 'one': one, 'reused_object': reused}
+            case = {'cfg': {}, 'dataset': ds, 'labels': lname, 'n': n, 'scheme': s, 'one': one, 'reused_object': reused,
+                    'mutated_in_place_from': origin}
             ctx.evals += 1
-            if reused:
+            if alg_obj is not None:
+                alg = alg_obj
+            elif reused:
                 alg = _lib.setdefault('inst', _lib['A']())
                 ctx.count('executions_on_a_reused_algorithm_object')
             else:
@@ -116,19 +119,36 @@ def scheme_list(kind):
     return SCHEMES
 
 
+def histories(ctx, ds0, lname, n, schemes):
+    """run -> mutate in place -> run again on the SAME dataset object and the SAME algorithm object."""
+    from ..lib import labels_for, mutation_histories, prepare_mutated, mk_scheme
+    labels = labels_for(lname, n)
+    for what, after in mutation_histories(ds0):
+        for s in schemes:
+            alg = _lib['A']()
+            d = prepare_mutated(ds0, labels, what, warm=lambda dd: alg.compute_consensus_rankings(dd, mk_scheme(s), False))
+            check_case(ctx, after, lname, n, [s], dataset_obj=d, alg_obj=alg, origin=[ds0, what])
+            ctx.count('executions_after_run_mutate_on_the_same_objects')
+
+
 def run_shard(sh):
     ctx = Ctx(ID)
     schemes = scheme_list(sh.get('schemes'))
     for index, ds in spaces.ds_iter_strided(sh['n'], sh['m'], sh['shard'], sh['nshards']):
         before = ctx.cases
         check_case(ctx, ds, sh['labels'], sh['n'], schemes)
+        if sh.get('histories'):
+            histories(ctx, ds, sh['labels'], sh['n'], [spaces.UNIFYING, spaces.PSEUDO])
         ctx.count('dataset_scheme_cases', ctx.cases - before)
         ctx.cases = before + 1
     return ctx.result()
 
 
 def replay(ctx, c):
-    check_case(ctx, tt(c['dataset']), c['labels'], c['n'], [scheme_of(c['scheme'])])
+    if c.get('mutated_in_place_from'):
+        histories(ctx, tt(c['mutated_in_place_from'][0]), c['labels'], c['n'], [scheme_of(c['scheme'])])
+    else:
+        check_case(ctx, tt(c['dataset']), c['labels'], c['n'], [scheme_of(c['scheme'])])
 
 
 def summarize(tier, seed, merged, phases):
